@@ -1,7 +1,7 @@
 (* C15 -- Boolean formulas have truth-table semantics.  Statements only.
    The connectives ~ & | ^ and the predicates are the definitions regenerated from tensor.py / logic.py
    on every run (Gen/Generated.v); the constructors are Model/Logic.v. *)
-From TN Require Import Proofs.GenP Proofs.LogicP Alg.Inst Alg.InstR Gen.Generated.
+From TN Require Import Proofs.GenP Proofs.LogicP Proofs.LogicRelP Proofs.ArithP Alg.Inst Alg.InstR Gen.Generated.
 
 (* symbols, constants: rank-1 networks of 1 x 2 x 1 cores *)
 Theorem C15_symbol : forall (K : Ops), laws K -> forall N n x, (n < N)%nat -> length x = N ->
@@ -18,6 +18,19 @@ Theorem C15_helpers : forall (K : Ops), laws K -> forall N which (a b : K) x, (0
   eval (sel_net N which a b) x = prod_at (map (sel_vec which a b) (seq 0 N)) x.
 Proof. exact sel_value. Qed.
 
+(* relevant_symbols tests, for variable n, the norm of the tensor with entries f(x_n = 1) - f(x_n = 0): it vanishes exactly
+   when the truth table does not depend on x_n *)
+Theorem C15_relevance_test : forall (K : Ops), laws K -> forall (n : nat) (cs : list (score K)) c idx i,
+  nth_error cs n = Some c -> dm c = 2%nat -> nth_error idx n = Some i ->
+  eval (bool_deriv_net K n cs) idx = (eval cs (upd n idx 1%nat) - eval cs (upd n idx O))%K.
+Proof. exact bool_deriv_sound. Qed.
+(* only(t) multiplies t by the indicator that every irrelevant variable is false *)
+Theorem C15_only : forall (K : Ops), laws K -> forall (N : nat) (irr : list nat) (cs r : list (score K)) x,
+  good K cs -> sshape cs = repeat 2%nat N -> (0 < N)%nat -> only_net K N irr cs = Some r ->
+  in_range (repeat 2%nat N) x = true ->
+  eval r x = (eval cs x * prod_at (map (sel_vec irr (r1 K) (r0 K)) (seq 0 N)) x)%K.
+Proof. exact only_sound. Qed.
+
 (* any formula over ~ & | ^ decompresses to its 0/1 truth table; the predicates agree with it.
    Stated for any tensor type whose kernels satisfy the C02/C06 specifications (hypotheses H_add, H_mul, ...). *)
 Definition C15_formula := @formula_truth_table.
@@ -32,6 +45,8 @@ Print Assumptions C15_symbol.
 Print Assumptions C15_true.
 Print Assumptions C15_false.
 Print Assumptions C15_helpers.
+Print Assumptions C15_relevance_test.
+Print Assumptions C15_only.
 Print Assumptions C15_formula.
 Print Assumptions C15_is_contradiction.
 Print Assumptions C15_is_tautology.
